@@ -12,6 +12,7 @@
   * loops run on fuel.
 -/
 import LpModel.Basic
+import LpModel.C11.Constants
 namespace Lp.C11
 
 /-! ## helpers -/
@@ -71,16 +72,18 @@ def rndD (x : Rat) : Rat :=
   if x.num < 0 then -v else v
 
 /-! ## constants of the source (decimal literals; the model rounds them with `rnd` where the
-    compiler rounds the literal) -/
+    compiler rounds the literal).  The values are NOT written here: `K.*` of
+    `LpModel/C11/Constants.lean` is regenerated from src/Numerics.cpp before every build
+    (translators/constants.py, DESIGN.md §4.5). -/
 
-def GOLD : Rat := 1618034 / 1000000        -- golden_ratio = 1.618034
-def GLIMIT : Rat := 100
-def TINYB : Rat := 1 / 10 ^ 20             -- Bracket: TINY = 1.0e-20
-def CGOLD : Rat := 3819660 / 10000000      -- 0.3819660
-def ZEPS : Rat := 1 / 2 ^ 52               -- numeric_limits<double>::epsilon()
-def ITMAX : Nat := 100
-def NMAX : Nat := 5000
-def TINYN : Rat := 1 / 10 ^ 10             -- minimize: TINY = 1.0e-10
+def GOLD : Rat := K.gold                   -- golden_ratio = 1.618034
+def GLIMIT : Rat := K.glimit               -- 100.0
+def TINYB : Rat := K.tinyBracket           -- Bracket: TINY = 1.0e-20
+def CGOLD : Rat := K.cgold                 -- 0.3819660
+def ZEPS : Rat := K.zeps                   -- numeric_limits<double>::epsilon() = 2^-52
+def ITMAX : Nat := K.itmax                 -- 100
+def NMAX : Nat := K.nmax                   -- 5000
+def TINYN : Rat := K.tinyNM                -- minimize: TINY = 1.0e-10
 
 /-- an evaluation event: abscissa and decision margin -/
 abbrev Ev := Rat × Rat
@@ -391,7 +394,7 @@ def scan (y : List Rat) : Scan :=
 
 /-- one vertex of the shrink step: the new vertex is written through `psum` and evaluated there -/
 def shrinkVertex (ndim : Nat) (pi plo : Pt) : Pt :=
-  (List.range ndim).map (fun j => rnd ((1/2) * rnd (pi.getD j 0 + plo.getD j 0)))
+  (List.range ndim).map (fun j => rnd (K.nmShrink * rnd (pi.getD j 0 + plo.getD j 0)))
 
 /-- the shrink loop over `i ≠ ilo`, in index order (`p[ilo]` itself is never written, so
     `plo` is the same row throughout): new rows and new values; row `ilo` keeps both -/
@@ -423,7 +426,7 @@ def nmStep (ftol : Rat) (ndim : Nat) (s : NM) : NMStep :=
   let c := scan s.y
   let yhi := s.y.getD c.ihi 0
   let ylo := s.y.getD c.ilo 0
-  let rtol := rnd (rnd (2 * rabs (rnd (yhi - ylo))) / rnd (rnd (rabs yhi + rabs ylo) + rnd TINYN))
+  let rtol := rnd (rnd (K.nmRtolTwo * rabs (rnd (yhi - ylo))) / rnd (rnd (rabs yhi + rabs ylo) + rnd TINYN))
   if rtol < ftol then
     let y' := swap0 s.y c.ilo 0
     let p' := swap0 s.p c.ilo []
@@ -432,17 +435,17 @@ def nmStep (ftol : Rat) (ndim : Nat) (s : NM) : NMStep :=
   else
     let m0 := rmin c.m (mc rtol ftol)
     let s0 := { s with nfunc := s.nfunc + 2 }
-    let r1 := amotry rnd f ndim s0 c.ihi (-1)
+    let r1 := amotry rnd f ndim s0 c.ihi K.nmReflect
     let s1 := r1.1
     let ytry := r1.2.1
     let ev1 : EvN := (r1.2.2, m0)
     let macc1 := mc ytry yhi   -- margin of the acceptance test inside amotry
     if ytry ≤ s1.y.getD c.ilo 0 then
-      let r2 := amotry rnd f ndim s1 c.ihi 2
+      let r2 := amotry rnd f ndim s1 c.ihi K.nmExpand
       .cont r2.1 [ev1, (r2.2.2, rmin macc1 (mc ytry (s1.y.getD c.ilo 0)))]
     else if ytry ≥ s1.y.getD c.inhi 0 then
       let ysave := s1.y.getD c.ihi 0
-      let r2 := amotry rnd f ndim s1 c.ihi (1/2)
+      let r2 := amotry rnd f ndim s1 c.ihi K.nmContract
       let s2 := r2.1
       let ytry2 := r2.2.1
       let ev2 : EvN := (r2.2.2, mins [macc1, mc ytry (s1.y.getD c.ilo 0), mc ytry (s1.y.getD c.inhi 0)])
